@@ -285,6 +285,8 @@ class SSH_Socket(ReadBuf, WriteBuf):
             else:
                 payload = self.read(payload_length)
                 header.write(payload)
+            if len(payload) < 1:
+                return -1, b'invalid ssh packet (empty payload)'
             packet_type = ord(payload[0:1])
             if sshv == 1:
                 rcrc = SSH1.crc32(padding + payload)
